@@ -239,6 +239,21 @@ class Half(P[U, int]):
 class Deep(H[V]):
     pass
 
+class Reord(P[U, T], Generic[T, U]):
+    """forwards its parameters permuted AND declares their order: Reord[X, Y] binds T=X, U=Y, so a: Y, b: X"""
+
+class M1(PaneBase, Generic[T]):
+    m1: T
+
+class M2(PaneBase, Generic[U]):
+    m2: U
+
+class MB(M1[V], M2[U]):
+    """two generic bases, each forwarding one parameter: parameters in order of appearance (V, U)"""
+
+class MBrev(M1[V], M2[U], Generic[U, V]):
+    """... with the order declared the other way round"""
+
 class KWG(PaneBase, Generic[T], in_format=('tuple', 'struct'), out_format='tuple'):
     x: T
     tag: str = field(default='t', kw_only=True)
@@ -271,6 +286,9 @@ INST_SPEC = {
     'Swapped_int_str': (lambda: Swapped[int, str], {'a': 'int', 'b': 'str'}),
     'Half_str': (lambda: Half[str], {'a': 'str', 'b': 'int'}),
     'Deeper_str': (lambda: Deeper[str], {'x': 'str', 'ys': 'list_str', 'z': 'opt_str', 'm': 'opt_str'}),
+    'Reord_int_str': (lambda: NS['Reord'][int, str], {'a': 'str', 'b': 'int'}),
+    'MB_int_str': (lambda: NS['MB'][int, str], {'m2': 'str', 'm1': 'int'}),
+    'MBrev_int_str': (lambda: NS['MBrev'][int, str], {'m2': 'int', 'm1': 'str'}),
     'KWG_int': (lambda: KWG[int], {'x': 'int', 'y': 'int', 'tag': 'str'}),
     'KWGsub_str': (lambda: KWGsub[str], {'x': 'str', 'y': 'int', 'tag': 'str'}),
 }
